@@ -109,15 +109,39 @@ def field_names(P, ty):
     return [f["name"] for f in adt["variants"][0]["fields"]]
 
 
-def callees(P, fpath, with_closures=True):
-    """set of resolved callee paths of a function (and its closures)"""
+_known_fns = None
+
+
+def known_fns():
+    global _known_fns
+    if _known_fns is None:
+        import os
+        p = os.path.join(os.path.dirname(os.path.dirname(os.path.abspath(__file__))), "specs", "known_fns.txt")
+        _known_fns = set(l.strip() for l in open(p) if l.strip() and not l.startswith("#")) if os.path.exists(p) else set()
+    return _known_fns
+
+
+def is_new_helper(P, c):
+    """a private in-crate function that did not exist in the reviewed tree: a helper extracted by a refactoring"""
+    if not P.has(c) or c in known_fns():
+        return False
+    f = P.fns[c]
+    return f.get("kind") in ("Fn", "AssocFn") and not f.get("pub") and "trait" not in f
+
+
+def callees(P, fpath, with_closures=True, _depth=0):
+    """set of resolved callee paths of a function (and its closures); newly extracted private helpers are looked through"""
     out = set()
     names = [fpath] + (P.closures_of(fpath) if with_closures else [])
     for n in names:
         cfg = P.cfg(n)
         for i, t, cs in P.calls(n):
             if i in cfg.reach:
-                out.update(cs)
+                for c in cs:
+                    if _depth < 3 and is_new_helper(P, c):
+                        out.update(callees(P, c, with_closures, _depth + 1))
+                    else:
+                        out.add(c)
     return out
 
 
